@@ -110,7 +110,7 @@ def one_scenario(chk, idx, branch):
             extra += ["--filter", flt]
             if flt == "covered" and orphan:
                 # only covered files were requested: the producer does not send the orphan unit at all
-                gc = [g for g in gc if g["stem"] != orphan]
+                gc = [g for g in gc if g["stem"] != names[orphan]]
                 stems = [st for st in stems if st != orphan]
         pg = vlib.run_impl("gcno", gc, chk.pid)
         for st, r in zip(stems, pg):
